@@ -26,6 +26,21 @@ WRITE_ARGS = {"set": ("k", b"v", 3, False), "add": ("k", b"v", 0, True), "replac
               "append": ("k", b"v", 1, True), "prepend": ("k", b"v", 2, False), "cas": ("k", b"v", b"77", 4, False),
               "delete": ("k", False), "incr": ("k", 5, False), "decr": ("k", 6, True), "touch": ("k", 30, False),
               "flush_all": (7, True)}
+# arguments a caller may leave out, per mutating operation: FallbackClient documents ONE rule for all of them - noreply=True, expire/delay=0
+OPTIONAL = {"set": ("expire", "noreply"), "add": ("expire", "noreply"), "replace": ("expire", "noreply"), "append": ("expire", "noreply"),
+            "prepend": ("expire", "noreply"), "cas": ("expire", "noreply"), "delete": ("noreply",), "incr": ("noreply",), "decr": ("noreply",),
+            "touch": ("expire", "noreply"), "flush_all": ("delay", "noreply")}
+RULE = {"noreply": True, "expire": 0, "delay": 0}
+
+
+def completed(meth, args):
+    """the argument list the primary must see when the caller gave only `args` (trailing optional ones left out)"""
+    full = len(WRITE_ARGS[meth])
+    opt = OPTIONAL[meth]
+    missing = full - len(args)
+    return tuple(args) + tuple(RULE[name] for name in opt[len(opt) - missing:]) if missing else tuple(args)
+
+
 SINGLE_ANS = [None, 0, b"", b"x", ("e",)]           # miss, falsy hits, hit, raises
 MULTI_ANS = [{}, {"k": b"v"}, [], ("e",)]
 
@@ -68,6 +83,9 @@ def all_cases(ctx):
         for meth, args in WRITE_ARGS.items():
             for a0 in (None, True, ("e",)):
                 cases.append((meth, args, [a0] + [None] * (n - 1)))
+            # optional arguments left out (one, then both): the primary sees the documented defaults in their place
+            for drop in range(1, len(OPTIONAL[meth]) + 1):
+                cases.append((meth, args[:len(args) - drop], [True] + [None] * (n - 1)))
             # "with the caller's arguments": each argument in turn over boundary values (falsy ones in particular)
             if n <= 2:
                 for pos in range(len(args)):
@@ -98,7 +116,7 @@ def correspondence(ctx):
         if meth in READS:
             reqs.append((1, (READS[meth], args[0], list(answers))))
         else:
-            reqs.append((2, (METHS.index(meth), list(args), answers[0])))
+            reqs.append((2, (METHS.index(meth), list(completed(meth, args)), answers[0])))
     model = ctx.driver.call_many(reqs)
     dis = []
     for c, m in zip(cases, model):
@@ -138,7 +156,7 @@ def search(ctx):
             elif r != exp:
                 why = "result is not the first hit"
         else:
-            if log != [(0, METHS.index(meth), list(args))]:
+            if log != [(0, METHS.index(meth), list(completed(meth, args)))]:
                 why = "a mutating operation must be exactly one call on the first cache with the caller's arguments"
         if why:
             found.append({"clause": why, "input": {"method": meth, "args": repr(args), "cache_answers": repr(answers)},
